@@ -585,10 +585,24 @@ func directOpenNewer(r *evid.Run, dir string, cs int64) {
 		r.Violation("harness:create", err.Error(), "newer", cs, nil)
 		return
 	}
-	bump := byte(1 + rg.Intn(4))
+	// 1..4 versions ahead, or far ahead: numbers whose low byte / low half look like
+	// a version the software knows
+	ahead := func(latest uint32) uint32 {
+		switch rg.Intn(5) {
+		case 0:
+			return 1<<16 + uint32(rg.Intn(int(latest)+1))
+		case 1:
+			return []uint32{1 << 8, 1<<8 + latest, 1 << 16, 1<<16 + latest, 1<<24 + 5, 1<<31 + 1, 0xffffffff}[rg.Intn(7)]
+		}
+		return latest + 1 + uint32(rg.Intn(4))
+	}
+	txVer, mgrVer := ahead(2), ahead(uint32(waddrmgr.LatestMgrVersion))
 	walletdb.Update(db, func(tx walletdb.ReadWriteTx) error {
-		tx.ReadWriteBucket([]byte("wtxmgr")).Put([]byte("vers"), []byte{0, 0, 0, 2 + bump})
-		tx.ReadWriteBucket([]byte("waddrmgr")).NestedReadWriteBucket([]byte("main")).Put([]byte("mgrver"), []byte{byte(waddrmgr.LatestMgrVersion) + bump, 0, 0, 0})
+		var be, le [4]byte
+		binary.BigEndian.PutUint32(be[:], txVer)
+		binary.LittleEndian.PutUint32(le[:], mgrVer)
+		tx.ReadWriteBucket([]byte("wtxmgr")).Put([]byte("vers"), be[:])
+		tx.ReadWriteBucket([]byte("waddrmgr")).NestedReadWriteBucket([]byte("main")).Put([]byte("mgrver"), le[:])
 		return nil
 	})
 	tops := [][]byte{[]byte("wtxmgr"), []byte("waddrmgr")}
@@ -604,19 +618,41 @@ func directOpenNewer(r *evid.Run, dir string, cs int64) {
 		return nil
 	})
 	if txErr == nil {
-		r.Violation("c19:newer-database-not-refused:wtxmgr.Open", fmt.Sprintf("wtxmgr.Open accepted a store recorded at version %d (latest understood: 2)", 2+bump), "newer", cs, nil)
+		r.Violation("c19:newer-database-not-refused:wtxmgr.Open", fmt.Sprintf("wtxmgr.Open accepted a store recorded at version %d (latest understood: 2)", txVer), "newer", cs, nil)
 		return
 	}
 	if addrErr == nil {
-		r.Violation("c19:newer-database-not-refused:waddrmgr.Open", fmt.Sprintf("waddrmgr.Open accepted a manager recorded at version %d (latest understood: %d)", int(waddrmgr.LatestMgrVersion)+int(bump), waddrmgr.LatestMgrVersion), "newer", cs, nil)
+		r.Violation("c19:newer-database-not-refused:waddrmgr.Open", fmt.Sprintf("waddrmgr.Open accepted a manager recorded at version %d (latest understood: %d)", mgrVer, waddrmgr.LatestMgrVersion), "newer", cs, nil)
 		return
 	}
 	if after := dumpDB(db, tops...); after != before {
 		r.Violation("c19:newer-database-modified", "the services' Open functions refused the newer namespaces but modified them", "newer", cs, nil)
 		return
 	}
+	// the services' own migration managers, driven as wallet.Open drives them: the
+	// upgrade of either must be refused as a reversion and change nothing
+	for _, svc := range []string{"wtxmgr", "waddrmgr"} {
+		var upErr error
+		walletdb.Update(db, func(tx walletdb.ReadWriteTx) error {
+			if svc == "wtxmgr" {
+				upErr = migration.Upgrade(wtxmgr.NewMigrationManager(tx.ReadWriteBucket([]byte("wtxmgr"))))
+			} else {
+				upErr = migration.Upgrade(waddrmgr.NewMigrationManager(tx.ReadWriteBucket([]byte("waddrmgr"))))
+			}
+			return nil // whatever it wrote is committed and shows in the dump
+		})
+		if !errors.Is(upErr, migration.ErrReversion) {
+			r.Violation("c19:newer-database-not-refused:"+svc+"-upgrade", fmt.Sprintf("upgrading the %s namespace recorded at version %d (wtxmgr) / %d (waddrmgr) returned %v, want ErrReversion", svc, txVer, mgrVer, upErr), "newer", cs, nil)
+			return
+		}
+		if after := dumpDB(db, tops...); after != before {
+			r.Violation("c19:newer-database-modified", fmt.Sprintf("the refused upgrade of the newer %s namespace (version %d / %d) modified it", svc, txVer, mgrVer), "newer", cs, nil)
+			return
+		}
+	}
 	r.Hit("direct-opens-of-newer-namespaces-refused", 2)
-	r.Case(fmt.Sprint("newer", cs), true)
+	r.Hit("direct-upgrades-of-newer-namespaces-refused", 2)
+	r.Case(fmt.Sprint("newer", cs, txVer, mgrVer), true)
 }
 
 func main() {
@@ -644,7 +680,7 @@ func main() {
 	})
 	r.Parallel("real", r.N(4, 160), evid.Workers(), func(i int, cs int64) { realCase(r, dir, i, cs) })
 	r.Require("real-newer-database-refused-unmodified", 1)
-	r.Parallel("newer", r.N(3, 40), evid.Workers(), func(i int, cs int64) { directOpenNewer(r, dir, cs) })
+	r.Parallel("newer", r.N(24, 200), evid.Workers(), func(i int, cs int64) { directOpenNewer(r, dir, cs) })
 	r.Require("direct-opens-of-newer-namespaces-refused", 4)
 	r.Parallel("counted", r.N(4, 80), evid.Workers(), func(i int, cs int64) { realCounted(r, dir, cs) })
 	r.Require("real-table-upgrade-attempts-counted", 12)
